@@ -626,13 +626,40 @@ pub fn alpha_table(ctx: &mut crate::Ctx, case: &Value, out: &mut Map<String, Val
     let mut atab: Vec<i64> = vec![-1; 256];
     let mut amulti: std::collections::BTreeMap<usize, Vec<i64>> = Default::default();
     let mut rets: Vec<String> = vec![];
-    for &w in &widths {
+    // two arrangements of the pairs per width: 0 = every pair once in (colour, alpha) order; 1 = alpha in RUNS of 1..12
+    // equal values (opaque / transparent / other) at every alignment with random colours, so that data-dependent branches
+    // of a kernel (a whole vector opaque, a whole vector transparent, mixed) are all taken
+    let widths2: Vec<(u32, u32)> = widths.iter().flat_map(|&w| [(w, 0u32), (w, 1u32)]).collect();
+    for &(w, arrangement) in &widths2 {
         let h = (65536 + w - 1) / w;
         let n = (w * h) as usize;
         let mut data: Vec<i64> = Vec::with_capacity(n * nc);
+        let mut rs: u64 = 0x9E3779B97F4A7C15 ^ (w as u64).wrapping_mul(0xBF58476D1CE4E5B9);
+        let mut next = move || {
+            rs ^= rs << 13;
+            rs ^= rs >> 7;
+            rs ^= rs << 17;
+            rs
+        };
+        let mut run_left = 0u64;
+        let mut run_alpha = 0i64;
         for i in 0..n {
             let j = i % 65536;
-            let (c, a) = ((j / 256) as i64, (j % 256) as i64);
+            let (mut c, mut a) = ((j / 256) as i64, (j % 256) as i64);
+            if arrangement == 1 {
+                if run_left == 0 {
+                    let r = next();
+                    run_left = 1 + r % 12;
+                    run_alpha = match (r >> 8) % 4 {
+                        0 | 1 => 255,
+                        2 => 0,
+                        _ => ((r >> 16) % 256) as i64,
+                    };
+                }
+                run_left -= 1;
+                a = run_alpha;
+                c = (next() % 256) as i64;
+            }
             if nc == 2 {
                 data.push(c);
                 data.push(a);
